@@ -552,15 +552,33 @@ def _frame(name, modifies=(), ensures=(), returns=None, params=None,
              ensures=list(ensures), returns=returns)
 
 
-_frame("initialise",
-       modifies=["self.training_samples", "self.proposal",
-                 "self.sample_counts", "self.iteration", "self.history"],
-       ensures=[e for e in LOOP_INV if "finalised" not in e and
-                "draw_iid_live" not in e and "nlive" not in e and
-                "plotting" not in e],
-       reason="ASSUMED: populate_live_points / proposal.initialise establish "
-       "the invariant for the initial level (one column of zeros, weight 1, "
-       "count n_initial): not under contract")
+_frame("initialise_history", modifies=["self.history"])
+_S["ISProposalC03"].methods.update({
+    "initialise": Contract(
+        "<abstract>", "ImportanceFlowProposal.initialise", trusted=True,
+        trusted_reason="creates the (empty) set of flows and the output "
+        "directories; ASSUMED not to touch weights / level count / stores",
+        modifies=[]),
+})
+FRESH = ["self.n_initial >= 1", f"len({CNT}) == 0", "not self.draw_iid_live",
+         f"len({PW}) == 1 and {PW}[-1] == 1 and not isnan({PW}[-1])",
+         f"{LV} == -1",
+         "self.proposal.flow.n_models == 0", "self.iteration == 0",
+         "len(self.proposal.flow.models) == 0",
+         "len(self.training_samples.nested_samples_indices) == 0"]
+contract(
+    INS, "ImportanceNestedSampler.initialise", variant_name="c03",
+    props=["C03"], self_shape="INSC03I", log_domain=True,
+    # the state the constructor leaves behind (ASSUMED of __init__ /
+    # ImportanceFlowProposal.__init__: not under contract)
+    requires=FRESH,
+    modifies=["self.training_samples", "self.sample_counts", "self.history",
+              "self.initialised"],
+    may_raise={"RuntimeError": None},
+    ensures=[e for e in LOOP_INV if "finalised" not in e and
+             "draw_iid_live" not in e and "nlive" not in e and
+             "plotting" not in e],
+)
 _frame("_compute_gradient")
 _frame("determine_log_likelihood_threshold", returns="Real",
        params={"samples": "Any", "method": "Any", "**kwargs": {}})
@@ -614,11 +632,11 @@ C03_LOOP_MOD = ["self.training_samples", "self.proposal",
 contract(
     INS, "ImportanceNestedSampler.nested_sampling_loop", variant_name="c03",
     props=["C03"], self_shape="INSC03", log_domain=True,
-    requires=["not self.draw_iid_live", "self.nlive >= 1",
+    requires=FRESH + ["self.nlive >= 1",
               "self.plotting_frequency >= 1",
               # (variable draws with an empty level: listed C20 finding)
               "self.draw_constant or self.replace_all"],
-    modifies=C03_LOOP_MOD + ["self.finalised"],
+    modifies=C03_LOOP_MOD + ["self.finalised", "self.initialised"],
     may_raise={"ValueError": None},
     returns="Tuple(Real,Any)",
     loops={0: {"inv": LOOP_INV, "modifies": C03_LOOP_MOD}},
@@ -628,4 +646,59 @@ contract(
         "implies(not old(self.finalised), self.finalised)"]
     + ["implies(not old(self.finalised), " + e + ")"
        for e in rows_ok("training_samples", f"{LV} + 2")],
+)
+
+# ---- base case: the initial live points (level -1, one column of zeros) -------
+LVP = "nessai/livepoint.py"
+contract(LVP, "get_dtype", variant_name="c03", props=["C03"], trusted=True,
+         verify=False, trusted_reason="structured dtype of the live points "
+         "(field plumbing: C18's concern)",
+         params={"names": "Any"}, returns=f"DType({INS_LP})")
+shape("ISModelInit", {"names": "Any"}, methods={
+    "sample_unit_hypercube": Contract(
+        "<abstract>", "ISModelInit.sample_unit_hypercube",
+        params={"n": "Int"}, trusted=True,
+        trusted_reason="n points drawn in the unit hypercube",
+        returns=INS_ARR,
+        ensures=["len(result) == n",
+                 "forall(i, 0, n, InUnit(result[i]['x']))"]),
+    "batch_evaluate_log_prior": _S["ISModelAbs"].methods[
+        "batch_evaluate_log_prior"],
+    "batch_evaluate_log_prior_unit_hypercube": _S["ISModelAbs"].methods[
+        "batch_evaluate_log_prior_unit_hypercube"],
+    "batch_evaluate_log_likelihood": _S["ISModelLL"].methods[
+        "batch_evaluate_log_likelihood"],
+})
+# (the sampler-side shape of C03 with the model methods populate uses)
+_S["ISModelLL"].methods.update(_S["ISModelInit"].methods)
+_S["ISModelLL"].attrs.update({"names": "Any"})
+_S["INSC03"].attrs.update({"n_initial": "Int", "initialised": "Bool"})
+# the same object seen by `initialise`: no live points yet (the property
+# live_points_unit is None before the first population)
+shape("INSC03I", dict(_S["INSC03"].attrs, live_points_unit="None"),
+      cls="ImportanceNestedSampler")
+contract(
+    INS, "ImportanceNestedSampler.populate_live_points", props=["C03", "C09"],
+    variant_name="c03", self_shape="INSC03", log_domain=True,
+    requires=["self.n_initial >= 1", f"len({CNT}) == 0",
+              "not self.draw_iid_live",
+              # a fresh proposal: only the initial (uniform) proposal, weight 1
+              f"len({PW}) == 1 and {PW}[-1] == 1",
+              "len(self.training_samples.nested_samples_indices) == 0"],
+    modifies=["self.training_samples", "self.sample_counts"],
+    may_raise={"RuntimeError": None},       # +inf likelihood
+    loops={0: {"inv": [
+        "0 <= n and n <= target", "len(live_points) == target",
+        "forall(i, 0, n, InUnit(live_points[i]['x']))"]}},
+    hints=[("at_end", None, f"lemma_mixrow_single({PW})"),
+           ("at_end", None, f"lemma_sum_single({CSUM})")],
+    ensures=_rep("training_samples") + [
+        "len(self.training_samples.samples) == self.n_initial",
+        f"len({CNT}) == 1 and {CNT}[-1] == self.n_initial",
+        f"{CSUM} == real(len(self.training_samples.samples))",
+        # only unit-hypercube points were handed to the likelihood (call-site
+        # obligation) and kept
+        "forall(i, 0, self.n_initial, "
+        "InUnit(self.training_samples.samples[i]['x']))",
+    ] + rows_ok("training_samples", "1"),
 )
